@@ -87,14 +87,16 @@ PROPS = {
                           thm("moq_template_control_closed", "TmplClosed")]),
     "C09": dict(kind="gen", files=["P_C09.v", "P_C02.v", "P_C20.v"], theorems=[thm("C09_tparams_shape", "P_C09"), thm("C09_tparams_count", "P_C09"), thm("C09_instances", "P_C09"), thm("C09_explicit_constraint", "P_C09"), thm("C09_tparam_names_verbatim", "P_C09"), thm("C09_selfcheck_refuted", "P_C09")], oracle=O.o_c09,
                 known=["self_check_not_instantiable", "constraint_unqualified_printer",
-                       "walk_incomplete", "tparams_clash", "names_tparams", "not_a_method_set_interface"]),
+                       "walk_incomplete", "tparams_clash", "names_tparams", "not_a_method_set_interface",
+                       "mock_name_twice", "method_name_clash", "unexported_foreign"]),
     "C10": dict(kind="gen", files=["P_C10.v", "P_C11.v", "Registry_Proofs.v"], theorems=[thm("C10_infer", "P_C10"), thm("C10_same_no_self_import", "P_C10"), thm("C10_same_bare", "P_C10"), thm("C10_other_imports_source", "P_C10"), thm("C10_skip_qualifier", "P_C10"), thm("C10_explicit_same_refuted", "P_C10")], oracle=O.o_c10,
                 known=["explicit_same_pkg", "unexported_foreign"]),
     "C11": dict(kind="gen", files=["P_C11.v", "Registry_Proofs.v"], theorems=[thm("C11_once", "P_C11"), thm("C11_sorted", "P_C11"), thm("C11_never_imports_destination", "P_C11"), thm("C11_keep_alias", "P_C11"), thm("C11_no_dot_blank", "P_C11"), thm("C11_vendor_example", "P_C11"), thm("C11_sync_when_methods", "P_C11"), thm("C11_distinct_refuted", "P_C11"), thm("C11_identifier_refuted", "P_C11")], oracle=O.o_c11,
                 known=["alias_duplicate", "alias_not_identifier", "walk_incomplete", "explicit_same_pkg"]),
     "C12": dict(kind="gen", files=["P_C12.v", "P_C19.v"], theorems=[thm("C12_reserved_covers_keywords", "P_C12"), thm("C12_reserved_covers_basic_types", "P_C12"), thm("C12_suffix_escapes_table", "P_C12"), thm("C12_generated_not_reserved", "P_C12"), thm("C12_fresh", "P_C12"), thm("C12_number_two_fixed", "P_C12"), thm("C12_user_reserved_fixed", "P_C12"), thm("C12_user_reserved_refuted", "P_C12"), thm("C12_fields_refuted", "P_C12"), thm("C12_numbering_crash_fixed", "P_C12")], oracle=O.o_c12,
                 known=["names_distinct", "fields_distinct", "names_body_idents", "names_keywords",
-                       "names_shadow_types", "names_qualifiers", "names_tparams", "tparams_clash"]),
+                       "names_shadow_types", "names_qualifiers", "names_tparams", "tparams_clash",
+                       "mock_name_twice", "method_name_clash"]),
     "C13": dict(kind="gen", files=["P_C13.v"],
                 theorems=[thm("C13_exported_spec", "P_C13"), thm("C13_table", "P_C13"),
                           thm("C13_initialism_any_case", "P_C13"), thm("C13_unnamed_rule", "P_C13"),
